@@ -175,6 +175,7 @@ pub enum Perturb {
     Dup(usize),
     Swap(usize),
     Replay(usize),
+    Window(usize, usize),
 }
 
 #[derive(Clone, Debug)]
@@ -473,6 +474,7 @@ impl Input {
             Perturb::Dup(i) => json!({"k": "dup", "i": i}),
             Perturb::Swap(i) => json!({"k": "swap", "i": i}),
             Perturb::Replay(i) => json!({"k": "replay", "i": i}),
+            Perturb::Window(i, n) => json!({"k": "window", "i": i, "n": n}),
         };
         json!({"mode": self.mode, "s_init": self.s_init, "trading0": self.trading0,
                "link": self.link, "hook": self.hook, "pre": steps_json(&self.pre),
@@ -494,6 +496,7 @@ impl Input {
                 "dup" => Perturb::Dup(pi),
                 "swap" => Perturb::Swap(pi),
                 "replay" => Perturb::Replay(pi),
+                "window" => Perturb::Window(pi, us(&p["n"])),
                 _ => Perturb::None,
             },
         }
@@ -1164,6 +1167,12 @@ pub fn perturb<T: Clone>(p: &Perturb, mut v: Vec<T>) -> Vec<T> {
                 v.push(x);
             }
         }
+        Perturb::Window(i, n) => {
+            if *i < v.len() {
+                let w: Vec<T> = v[*i..(*i + *n).min(v.len())].to_vec();
+                v.extend(w);
+            }
+        }
     }
     v
 }
@@ -1341,6 +1350,7 @@ fn run_case_inner(inp: &Input, stream: &'static str) -> Case {
             Perturb::Dup(i) => format!("(PDup {})", i),
             Perturb::Swap(i) => format!("(PSwap {})", i),
             Perturb::Replay(i) => format!("(PReplay {})", i),
+            Perturb::Window(i, n) => format!("(PWindow {} {})", i, n),
         },
         snapshot.context.sequence.0,
         b(snapshot.event.trading == TradingState::Enabled),
@@ -1362,6 +1372,7 @@ fn run_case_inner(inp: &Input, stream: &'static str) -> Case {
         Perturb::Dup(_) => "perturb_dup",
         Perturb::Swap(_) => "perturb_swap",
         Perturb::Replay(_) => "perturb_replay",
+        Perturb::Window(..) => "perturb_window",
     }.into());
     tags.sort();
     tags.dedup();
